@@ -50,7 +50,7 @@ func ruleAbort(c *core.Ctx, a *engb.Analyzer) {
 			}
 		}
 		c.Floor("B-ABORT:steps", len(r.GenSteps), 5, "may-fail generation steps in the run function")
-		c.Floor("B-ABORT:effects", len(r.Effects), 4, "output effects in the run function")
+		c.Floor("B-ABORT:effects", len(r.Effects)+r.HelperEffects, 4, "output effects in the run function and its output helpers")
 		c.Sample(map[string]any{"rule": "B-ABORT", "run_function": run, "effects": names(r.Effects, c), "may_fail_steps": names(r.GenSteps, c)})
 	}
 	for _, e := range r.Exits {
